@@ -225,25 +225,34 @@ package models
 // ---------------------------------------------------------------------------------------
 // C09: canonical text of a URL (URLToString / encodeQuery)
 
-// encodeRawQuery: re-encodes the raw query pair by pair, in order. reenc(q) below *names* the
-// function it computes; that this is a function of the text (the same input always gives the
-// same string) is the structural obligation `deterministic` (no map iteration, no select, no
-// clock in it or in anything it calls); url.QueryEscape/QueryUnescape and strings.Cut are
-// library functions of their arguments. The body itself (a string-splitting loop over a
-// strings.Builder) is outside the modelled subset, hence `opaque`.
+// encodeRawQuery: re-encodes the raw query pair by pair, in order. The specification is the
+// left-to-right fold reencAcc(acc, q): take the text before the first "&" of q as the next pair;
+// a pair that is empty, contains ";" or has an undecodable name or value is dropped; any other
+// pair is appended to acc as  esc(name) "=" esc(value)  (preceded by "&" unless acc is empty);
+// continue with the text after that "&". reenc(q) = reencAcc("", q): every well-formed pair of
+// q, exactly once, in the order of q. The loop is verified against that fold (strings.Cut,
+// url.QueryUnescape/QueryEscape are functions of their arguments, lib spec c09_query.spec;
+// strings.Builder is the engine's text accumulator). That the result is a function of the text
+// (the same input always gives the same string) is also the structural obligation
+// `deterministic` (no map iteration, no select, no clock in it or in anything it calls).
+//@ pure reencAcc(acc string, q string) string
+//@ pure reencDrop(pair string) bool = pair == "" || strings.Contains(pair, ";") || !url.unescOk(strings.cutBefore(pair, "=")) || !url.unescOk(strings.cutAfter(pair, "="))
+//@ pure reencStep(acc string, pair string) string = ite(reencDrop(pair), acc, ite(len(acc) > 0, acc + "&", acc) + url.QueryEscape(url.unesc(strings.cutBefore(pair, "="))) + "=" + url.QueryEscape(url.unesc(strings.cutAfter(pair, "="))))
+//@ axiom [reenc-done] forall(acc string) :: reencAcc(acc, "") == acc
+//@ axiom [reenc-step] forall(acc string, q string) :: q != "" ==> reencAcc(acc, q) == reencAcc(reencStep(acc, strings.cutBefore(q, "&")), strings.cutAfter(q, "&"))
 //@ func encodeRawQuery
 //@   property C09
-//@   opaque
 //@   attr deterministic
 //@   modifies nothing
-//@   ensures result == reenc(query)
+//@   loop query invariant [fold] reencAcc(sbtext(buf), query) == reencAcc("", old(query)) // C09: well-formed query parameters keep their order and multiplicity
+//@   ensures [order] result == reenc(query)
 
 // URLToString: the query is re-encoded except for the three signed reddit hosts, the host is
 // converted to ASCII (idna; lib spec c09_idna.spec), the result is net/url's serialisation of
 // the updated URL.
 // reenc(q): the order-preserving re-encoding of the raw query q (every name=value pair of q, in
 // the order and multiplicity of q, each part query-escaped): a function of the query text.
-//@ pure reenc(q string) string
+//@ pure reenc(q string) string = reencAcc("", q)
 //@ pred isSignedHost(h string) = h == "external-preview.redd.it" || h == "styles.redditmedia.com" || h == "preview.redd.it"
 //@ func URLToString
 //@   property C09
